@@ -888,7 +888,16 @@ func compareReplies(prop string, ci int, cr *ClientResult, exp []Expect, ds []Di
 func runSlowReader(f *Fixture, spec *PipeSpec, want int) *PipeResult {
 	pi := indexPlans(spec)
 	gates := &gateSet{}
-	gates.releaseAll()
+	held := 0
+	for i := range spec.Plans {
+		if spec.Plans[i].Hold {
+			held++
+		}
+	}
+	if held == 0 {
+		gates.releaseAll()
+	}
+	defer gates.releaseAll()
 	f.Cluster.ResetLog()
 	f.Cluster.SetHandler(pi.handler(gates))
 	defer f.Cluster.SetHandler(nil)
@@ -907,23 +916,29 @@ func runSlowReader(f *Fixture, spec *PipeSpec, want int) *PipeResult {
 	werr := make(chan error, 1)
 	go func() { werr <- c.WriteChunks(stream, cs.Cuts, time.Duration(cs.PauseUs)*time.Microsecond) }()
 	// wait until the backends have answered everything they received (bounded), then a little more
-	stable := time.Now()
-	last := -1
-	for time.Since(stable) < 40*time.Millisecond {
-		n := 0
-		for _, r := range f.Cluster.Log() {
-			if !r.RepliedAt().IsZero() {
-				n++
+	settle := func() {
+		stable := time.Now()
+		start := time.Now()
+		last := -1
+		for time.Since(stable) < 40*time.Millisecond && time.Since(start) < 3*time.Second {
+			n := 0
+			for _, r := range f.Cluster.Log() {
+				if !r.RepliedAt().IsZero() {
+					n++
+				}
 			}
+			if n != last {
+				last = n
+				stable = time.Now()
+			}
+			time.Sleep(2 * time.Millisecond)
 		}
-		if n != last {
-			last = n
-			stable = time.Now()
-		}
-		time.Sleep(2 * time.Millisecond)
-		if time.Since(stable) > 3*time.Second {
-			break
-		}
+	}
+	settle()
+	if held > 0 {
+		// now the held head replies: everything behind them is complete and gets flushed in one go
+		gates.releaseAll()
+		settle()
 	}
 	c.StartReading()
 	select {
